@@ -15,7 +15,7 @@ use native_tls::{Error, HandshakeError, MidHandshakeTlsStream};
 use super::common::AllowStd;
 
 #[derive(Debug)]
-pub struct TlsStream<S>(native_tls::TlsStream<AllowStd<S>>);
+pub struct TlsStream<S>(native_tls::TlsStream<AllowStd<S>>, bool);
 
 #[derive(Clone)]
 pub struct TlsConnector(native_tls::TlsConnector);
@@ -113,7 +113,13 @@ where
     }
 
     fn poll_close(mut self: Pin<&mut Self>, ctx: &mut Context<'_>) -> Poll<io::Result<()>> {
-        self.with_context(ctx, |s| s.shutdown())
+        if !self.1 {
+            std::task::ready!(self.with_context(ctx, |s| s.shutdown()))?;
+            self.1 = true;
+        }
+        // OpenSSL discards the result of the BIO flush that follows the close_notify alert, so a
+        // transport whose flush returned `Pending` still holds it: flush until it is really out.
+        self.with_context(ctx, |s| s.get_mut().flush())
     }
 }
 
@@ -160,7 +166,7 @@ where
         match (inner.f)(stream) {
             Ok(mut s) => {
                 s.get_mut().clear_context();
-                Poll::Ready(Ok(StartedHandshake::Done(TlsStream(s))))
+                Poll::Ready(Ok(StartedHandshake::Done(TlsStream(s, false))))
             }
             Err(HandshakeError::WouldBlock(mut s)) => {
                 s.get_mut().clear_context();
@@ -224,7 +230,7 @@ impl<S: AsyncRead + AsyncWrite + Unpin> Future for MidHandshake<S> {
         match s.handshake() {
             Ok(mut s) => {
                 s.get_mut().clear_context();
-                Poll::Ready(Ok(TlsStream(s)))
+                Poll::Ready(Ok(TlsStream(s, false)))
             }
             Err(HandshakeError::WouldBlock(mut s)) => {
                 s.get_mut().clear_context();
